@@ -123,6 +123,12 @@ def enumerated_schedules(tier, rng, sizes):
         for b in ("e1", "e2", "e3"):
             out.append([["nodir"], ["call", 1, "e1"]] + [["step", 1, ""]] * cut + [["call", 2, b], ["run", 2], ["run", 1], ["call", 3, "e1"], ["run", 3]])
     out.append([["nodir"], ["call", 1, "e3"], ["run", 1], ["call", 2, "e3"], ["run", 2]])
+    # (g) one OS process calls several times (whatever a call leaves in the interpreter is still there for the next one):
+    #     miss, hit, then another expression - colliding or not - and the first one again
+    for a in exprs:
+        for b in exprs:
+            if a != b:
+                out.append([["call", 1, a], ["run", 1], ["call", 1, a], ["run", 1], ["call", 1, b], ["run", 1], ["call", 1, a], ["run", 1], ["call", 1, b], ["run", 1]])
     # (d) hand-picked interleavings of two processes on one key (reader during write, double writers)
     w = ["Stat", "OpenW", "Write", "Write", "Close", "Replace", "Return"]
     for cut in range(1, 7):
@@ -163,6 +169,7 @@ def run(chk, replay=None):
         "TLC/SANY; POSIX semantics of open/replace as modelled with inodes in CacheFS.tla",
         "interposition covers builtins.open/io.open, os.open(O_CREAT), os.stat, os.replace/rename, os.unlink in the cache directory and os.mkdir / os.stat of the directory itself",
         "a killed process = SIGKILL between two interposed operations, or after n bytes of a buffered write reached the file",
+        "one OS process per model process: consecutive calls of a process run in the same interpreter (a new one after a crash)",
         "pickle of an entry is written in 2 chunks for interleaving purposes (byte-exact only for the crash-prefix family)",
     )
     # 1. the design: exhaustive TLC on the intended algorithm (Dev = {})
